@@ -57,7 +57,14 @@ def check_attribution(st, tr, V, names=None, check_tokens_items=None):
                   % (cname, len(snaps), len(truth)))
         for i, (s, cl) in enumerate(zip(snaps, truth)):
             want = (cl.target.iface, cl.target.id, cl.target.gen)
-            if not s.target.resolved or s.target.tup() != want:
+            if getattr(cl.target, 'orphan', False):
+                # a stray message on an id nothing has created (ill-formed on purpose): no message but one naming a new id
+                # brings an object into being, so the target stays unresolved
+                V.bump('probe_stray_message_on_a_never_created_id')
+                if s.target.resolved:
+                    V.add('C02/created-type', 'stray-message', '%s msg %d %s on never-created id %d: the tool now has an object %r for it'
+                          % (cname, i, cl.name, cl.target.id, s.target.tup()))
+            elif not s.target.resolved or s.target.tup() != want:
                 V.add('C02/target', 'target', '%s msg %d %s: target attributed to %r (resolved=%s), ground truth %r'
                       % (cname, i, cl.name, s.target.tup(), s.target.resolved, want))
             else:
@@ -101,7 +108,8 @@ def check_attribution(st, tr, V, names=None, check_tokens_items=None):
             V.add('C02/identity', 'split-object', 'incarnation %r is represented by %d different tool objects' % (key, len(pys)))
     # nothing else reachable: every object the tool's messages mention is one of the mentioned incarnations
     for wc, cname in names.items():
-        reach = set(tr.objects.get(cname, {}))
+        stray_ids = {cl.target.id for cl in st.world.conns[wc].msgs if getattr(cl.target, 'orphan', False)}
+        reach = {p for p, o in tr.objects.get(cname, {}).items() if not (o.generation is None and o.id in stray_ids)}
         matched = {p for p in reach if p in py2inc}
         if not V.list and len(reach) != len(matched):
             extra = [tr.objects[cname][p] for p in reach - matched]
@@ -114,6 +122,11 @@ def check_attribution(st, tr, V, names=None, check_tokens_items=None):
         else:
             for o, cl in zip(outs, cls):
                 want = (names[cl.conn], cl.target.iface, cl.target.id, W.letters(cl.target.gen))
+                if getattr(cl.target, 'orphan', False):
+                    if not o.unresolved or (o.iface, o.id) != want[1:3]:
+                        V.add('C02/label-token', 'stray-message', 'line %r: a message on never-created id %d shown as a known object' % (o.text, cl.target.id))
+                        break
+                    continue
                 if (o.conn, o.iface, o.id, o.gen) != want or o.unresolved:
                     V.add('C02/label-token', 'target', 'line %r: target token, ground truth %r' % (o.text, want))
                     break
